@@ -4,7 +4,7 @@ from ..facts import op_place, op_local, op_const, AnchorError
 from ..callgraph import callee_is
 from ..mirutil import (propagates_error, root_place, op_root, deep_root, origin, defuse, calls_in, place_is_field, success_edges, field_writes,
                        aggregates, result_return_sites, dominated_by_ok, calls_on_field, loops_of, iter_source)
-from ..region import dominated_by_edges, switch_edges_on_variant, write_summary
+from ..region import dominated_by_edges, switch_edges_on_variant, write_summary, edges_where
 from ..decision import enum_switch_edges
 from .. import anchors as A
 from . import c01
@@ -350,20 +350,7 @@ def r5_retransmission_wiring(cx):
     mx = prog.const_value("MAX_FAILED_RETRIES")
     rep = [ci for ci, ct in es.calls() if callee_is(ct, "InitState::repeat_last_message")]
     cx.exact("repeat-sites", len(rep), 1, "repeat_last_message calls in InitState::every_second")
-    lt_edges = set()
-    for bi, si, s in es.stmts():
-        if s["k"] == "assign" and s["rv"]["k"] == "binop" and s["rv"]["op"] in ("Lt", "Le") and op_const(s["rv"]["b"]) == mx:
-            r = root_place(es, op_place(s["rv"]["a"])) if op_place(s["rv"]["a"]) else None
-            if r is not None and place_is_field(r, "InitState", "failed_retries"):
-                l = s["place"]["l"]
-                for sb in es.cfg.reach:
-                    tt = es.blocks[sb]["term"]
-                    if tt["k"] == "switch" and op_local(tt["discr"]) == l:
-                        for k, v in enumerate(tt["values"]):
-                            if v != 0:
-                                lt_edges.add(("e", sb, k))
-                        if tt["values"] == [0]:
-                            lt_edges.add(("e", sb, 1))
+    lt_edges = edges_where(es, lambda r: place_is_field(r, "InitState", "failed_retries"), "Lt", mx)
     for ci in rep:
         cx.check("repeat-while-retries-left", dominated_by_edges(es, lt_edges, ci), site_of(es, ci), "the last message is repeated while failed_retries < MAX_FAILED_RETRIES (%s)" % mx)
     fat = [(b, bi, s) for (b, bi, s) in aggregates(prog, "Error", "CryptoInitFatal") if b.did == es.did]
